@@ -157,7 +157,7 @@ def finish_result(result, keep_events=False):
 def load_known_findings():
     if not os.path.exists(KNOWN_FINDINGS):
         return {'known': [], 'fixed': []}
-    with open(KNOWN_FINDINGS) as fh:
+    with open(KNOWN_FINDINGS, encoding='utf-8') as fh:
         d = json.load(fh)
     d.setdefault('known', [])
     d.setdefault('fixed', [])
@@ -324,14 +324,14 @@ def write_replay(prop, scenario, v, extra=None):
         doc.update(extra)
     name = sha(doc)[:16] + '.json'
     path = os.path.join(d, name)
-    with open(path, 'w') as fh:
+    with open(path, 'w', encoding='utf-8') as fh:
         fh.write(dumps(doc, indent=1))
         fh.write('\n')
     return path
 
 
 def read_replay(path):
-    with open(path) as fh:
+    with open(path, encoding='utf-8') as fh:
         return json.load(fh)
 
 
@@ -341,10 +341,10 @@ def replay_in_fresh_process(prop, path, hashseed='0'):
     env = dict(os.environ)
     env['PYTHONHASHSEED'] = hashseed
     env['PICOSIM_NO_CONFIRM'] = '1'
+    env.pop('PICOSIM_CONFIG', None)      # the replay file names its own
     p = subprocess.run(
-        [sys.executable] + (['-O'] if sys.flags.optimize else []) +
-        [os.path.join(VERIF_DIR, 'picosim', 'main.py'), prop, '--replay',
-         path],
+        [sys.executable, os.path.join(VERIF_DIR, 'picosim', 'main.py'), prop,
+         '--replay', path],
         env=env, stdout=subprocess.PIPE, stderr=subprocess.STDOUT,
         timeout=600)
     return p.returncode, p.stdout.decode('utf-8', 'replace')
@@ -370,7 +370,7 @@ def write_evidence(prop, tier, seed, level, coverage, wall_s, violations,
         doc.update(extra)
     path = os.path.join(EVIDENCE_DIR, prop + '.json')
     tmp = path + '.tmp'
-    with open(tmp, 'w') as fh:
+    with open(tmp, 'w', encoding='utf-8') as fh:
         fh.write(dumps(doc, indent=1))
         fh.write('\n')
     os.replace(tmp, path)
